@@ -137,6 +137,24 @@ class C19(Prop):
                         if await rig.barrier(p) != "ok":
                             acc.inconclusive_because("workload: sentinel not delivered")
                     rig.log.raise_on = None
+                    # right after a broadcast of a known model that could not be decoded (nothing good has arrived since)
+                    for model in ("V4", "BREEZE", "RUNNER"):
+                        good = rb.encode(gen.broadcast_desc(r, model, 3, "0e0e0e"))
+                        bad = bytearray(good)
+                        if model == "RUNNER":
+                            bad[137:139] = b"\x01\x01"
+                        elif model == "BREEZE":
+                            bad[140] = 0x90
+                        else:
+                            bad[42:74] = b"n" * 31 + b"\xd7"
+                        n_ev = len(rig.log.events)
+                        rig.send(use[0], bytes(bad))
+                        for spin in range(300):
+                            if len(rig.log.events) > n_ev:
+                                break
+                            await asyncio.sleep(0 if spin < 200 else 0.002)
+                        self._matrix(acc, ":right-after-an-undecodable-broadcast")
+                    await rig.barrier(use[0])
                     # a long-lived process on a noisy network: hundreds of distinct model codes nobody knows ...
                     known = {bytes.fromhex(t.hex_rep) for t in self.device.DeviceType}
                     template = rb.encode(gen.broadcast_desc(r, "V4", 1, "0d0e0f"))
